@@ -102,7 +102,7 @@ func WriteError(conn redcon.Conn, err error) {
 
 func errWrongNumber(args [][]byte) error {
 	sb := strings.Builder{}
-	for {
+	for len(args) > 0 {
 		arg := args[0]
 		sb.Write(arg)
 		args = args[1:]
